@@ -705,7 +705,7 @@ pub fn check_conv<A: Alphabet>(c: &ConvCase, fails: &mut Fails) -> ConvOutcome {
 
 const CONV_DESC: &str = "product: alphabet (dna, protein) x every count matrix of width 1..=3 (dna; thorough 1..=4) / 1..=2 (protein; thorough 1..=3) over the row menu \
     (dna 8 rows: single symbol, equal, skewed, 10^6-scale, wildcard count 2, wildcard only, all zero, wildcard-dominated with distinct counts; protein 4 rows) x 5 pseudocount specs (0, 0.1, 1, per-symbol, wildcard-only) \
-    x 5 backgrounds (uniform, skewed, one/several non-wildcard zeros, non-zero wildcard, through new / from_counts) x 7 bases (2, 10, e, 3, 1.5, 2.5, 9.5). On every point: to_freq cells and row sums, \
+    x 6 backgrounds (uniform, skewed, one/several non-wildcard zeros, non-zero wildcard, through new / from_counts, one frequency of 1e-8) x 7 bases (2, 10, e, 3, 1.5, 2.5, 9.5). On every point: to_freq cells and row sums, \
     to_weight(bg), to_weight(None), rescale(bg), and the score routes to_scoring(bg) / into_scoring(bg) / to_weight(bg).to_scoring() / to_weight(None).rescale(bg).to_scoring() (base 2 points) and \
     to_scoring_with_base(base) after to_weight(bg) and after rescale(bg), each against the f64 definitions with derived tolerances (exact for 0 / -inf). \
     non-trivial = every row total > 0 (in the domain) and the background was constructible; rows with total 0 (0/0) are skipped";
